@@ -142,7 +142,7 @@ func realCheck1(path string, fl bolt.FreelistType, set map[string]bool) (n int, 
 }
 
 func cliCheck(path string) (exit int, out string) {
-	cmd := exec.Command("/verif/bin/bbolt", "check", path)
+	cmd := exec.Command(cliPath(), "check", path)
 	b, err := cmd.CombinedOutput()
 	if err == nil {
 		return 0, string(b)
